@@ -182,8 +182,10 @@ func RunC06(ctx *core.Ctx, r *core.Rng) {
 	switch x := r.Intn(100); {
 	case x < 22:
 		sz = fmts.Tiny
-	case x < 80:
+	case x < 65:
 		sz = fmts.Small
+	case x < 80:
+		sz = fmts.Multi
 	case x < 96:
 		sz = fmts.Medium
 	default:
